@@ -15,7 +15,7 @@ use rayon::prelude::*;
 use refnoise::{DhAlg, HashAlg};
 use std::sync::Arc;
 
-const CATS: [Cat; 8] = [Cat::ExpectedOkGotErr, Cat::ExpectedErrGotOk, Cat::OutBytes, Cat::OutLen, Cat::GetterNonce, Cat::WireBytes, Cat::NoOp, Cat::Panic];
+const CATS: [Cat; 7] = [Cat::ExpectedOkGotErr, Cat::ExpectedErrGotOk, Cat::OutBytes, Cat::OutLen, Cat::GetterNonce, Cat::WireBytes, Cat::Panic];
 
 fn spec(cfg: Config, mode: Mode, depth: usize, devs: usize) -> SeqSpec {
     let proto = cfg.proto();
@@ -57,7 +57,24 @@ fn spec(cfg: Config, mode: Mode, depth: usize, devs: usize) -> SeqSpec {
         e.steps.iter().any(|s| matches!(s.op, Op::TRead { .. } | Op::SRead { .. }) && s.real.is_ok())
             && e.abs.iter().any(|a| a.keys.iter().any(|k| matches!(k, Some(crate::exec::KeyTerm::Rekey(_)))))
     });
-    SeqSpec { cfg, prefix, max_depth: depth, max_devs: devs, alphabet, judge: judge_cats(&CATS), goal }
+    SeqSpec { cfg, prefix, max_depth: depth, max_devs: devs, alphabet, judge: Arc::new(judge), goal }
+}
+
+/// "leaves nonces untouched" is judged at the rekey calls themselves; what a *rejected read* does to the
+/// counters is C05's business, and wire bytes are judged for transport writes only
+fn judge(e: &Exec) -> Vec<(String, String)> {
+    sess::filter(e, &CATS)
+        .into_iter()
+        .filter(|m| {
+            let op = e.steps.get(m.step).map(|s| &s.op);
+            match m.cat {
+                Cat::GetterNonce => matches!(op, Some(Op::RekeyOut { .. } | Op::RekeyIn { .. } | Op::RekeyManual { .. } | Op::RekeyInitManual { .. } | Op::RekeyRespManual { .. })),
+                Cat::WireBytes | Cat::OutLen => matches!(op, Some(Op::TWrite { .. } | Op::SWrite { .. })),
+                _ => matches!(op, Some(Op::TWrite { .. } | Op::SWrite { .. } | Op::TRead { .. } | Op::SRead { .. } | Op::RekeyOut { .. } | Op::RekeyIn { .. } | Op::RekeyManual { .. } | Op::RekeyInitManual { .. } | Op::RekeyRespManual { .. })),
+            }
+        })
+        .map(|m| (sess::signature(e, m), format!("{}: {}", e.cfg.name, m.detail)))
+        .collect()
 }
 
 pub fn run(tier: Tier) -> i32 {
@@ -98,5 +115,10 @@ pub fn run(tier: Tier) -> i32 {
 }
 
 pub fn replay(case: &serde_json::Value) -> Result<(), String> {
-    replay_cats(case, &CATS)
+    let (cfg, ops) = sess::case_from_json(case).ok_or("bad case")?;
+    let e = sess::run(&cfg, &ops);
+    match judge(&e).first() {
+        Some((s, d)) => Err(format!("{s}: {d}\n{}", sess::describe_steps(&e).join("\n"))),
+        None => Ok(()),
+    }
 }
